@@ -405,8 +405,15 @@ func (e *Eval) compile(node ast.Node) error {
 		// value, and no clean termination.  Instead we'd walk
 		// off the end of our bytecode array.
 		//
-		if len(e.instructions) == 0 ||
-			code.Opcode(e.instructions[len(e.instructions)-1]) != code.OpReturn {
+		// Look at the last instruction, not at the last byte:
+		// that might be the operand of some other instruction
+		// which merely has the same value as the return-opcode.
+		//
+		last := code.OpNop
+		for ip := 0; ip < len(e.instructions); ip += code.Length(last) {
+			last = code.Opcode(e.instructions[ip])
+		}
+		if len(e.instructions) == 0 || last != code.OpReturn {
 			e.emit(code.OpVoid)
 			e.emit(code.OpReturn)
 		}
